@@ -25,7 +25,7 @@ def main():
         os.makedirs(os.path.dirname(dst), exist_ok=True)
         shutil.copyfile(os.path.join(wt, d), dst)
     pkgs = sorted({"./" + os.path.dirname(d) for d in demos})
-    run_demo = "go test -count=1 -run 'TestSeeded' " + " ".join(pkgs)
+    run_demo = "go test -count=1 -run 'Seeded' " + " ".join(pkgs)
     meta = {"id": sid, "breaks": props, "changed_files": changed, "demo_files": demos, "demo_cmd": run_demo}
     # 1. demo fails with the change
     rc1, o1 = sh(run_demo, cwd=wt)
@@ -39,7 +39,7 @@ def main():
     # 3. build + existing tests of touched packages and their dependants (demo skipped)
     rc3, o3 = sh("go build ./... && go vet " + " ".join(sorted({"./" + os.path.dirname(c) for c in changed})), cwd=wt)
     tpk = sorted({"./" + os.path.dirname(c) + "/..." for c in changed} | set(pkgs))
-    rc4, o4 = sh("go test -count=1 -skip 'TestSeeded' " + " ".join(tpk), cwd=wt)
+    rc4, o4 = sh("go test -count=1 -skip 'Seeded' " + " ".join(tpk), cwd=wt)
     meta["builds"] = rc3 == 0
     meta["existing_tests_touched_packages"] = "PASS" if rc4 == 0 else "FAIL: " + o4[-600:]
     # 4. our checks
